@@ -583,9 +583,9 @@ def c05(ctx):
 
 @prop("X01", "Trace_X01")
 def x01(ctx):
+    V.mc(ctx, "MC_X01", workers=12)
     summ = V.gen_traces(ctx, shards=8)
     V.validate(ctx, "Trace_X01", summ, V.default_sig, par=8, timeout=3000)
-    ctx.states = 0
     return V.finish(ctx, "exploration",
                     rule="system-level composition Demux: random single-program multiplexes (leading garbage, foreign packets, a stale PMT before the PAT, a PMT unit tail after it, "
                          "PMT carriages with every stuffing style, SCTE-35 sections on the signalled PID, partial tail); Sync, ReadPAT, ReadPMT and NewSCTE35 are applied in the order of "
